@@ -128,13 +128,19 @@ def make_watch_cases(tier, seed):
         if exts is not None:
             ylines.append("        extensions: [%s]" % ", ".join("'%s'" % e for e in exts))
         resources = [{"paths": [["src"]], "exts": exts or []}]
+        inherited = False
         if exts2 is not None:
             if rng.random() < 0.5:
                 ylines += ["      - paths: [src/sub, src]", "        extensions: [%s]" % ", ".join("'%s'" % e for e in exts2)]
                 resources.append({"paths": [["src", "sub"], ["src"]], "exts": exts2})
-            else:       # a nested path with its own filter, below a listed path with another filter
+            elif rng.random() < 0.5:       # a nested path with its own filter, below a listed path with another filter
                 ylines += ["      - paths: [src/sub]", "        extensions: [%s]" % ", ".join("'%s'" % e for e in exts2)]
                 resources.append({"paths": [["src", "sub"]], "exts": exts2})
+            else:       # the same, but the nested entry is inherited: it is the output of a producer p, consumed as p.output (C13)
+                ylines = ["targets:", "  p:", "    build: 'true'", "    output:", "      - paths: [src/sub]",
+                          "        extensions: [%s]" % ", ".join("'%s'" % e for e in exts2)] + ylines[1:] + ["      - p.output"]
+                resources.append({"paths": [["src", "sub"]], "exts": exts2})
+                inherited = True
         y = "\n".join(ylines) + "\n"
         ops, mops = [], []
         created = []
@@ -197,7 +203,7 @@ def make_watch_cases(tier, seed):
                     n = rng.choice(pool)
                     ops.append({"op": "create", "path": {"segs": dd + [comp_json(name_bytes(n))]}})
                     mops.append({"kind": "create", "p": dd + [lossy(name_bytes(n))], "to": [], "check": True})
-        m = {"resources": resources, "ops": mops, "also": ["C15"]}      # "watching applies the same rule to the path of each event"
+        m = {"resources": resources, "ops": mops, "also": ["C15"] + (["C13"] if inherited else [])}      # "watching applies the same rule to the path of each event"
         cases.append({"id": "w%d" % k, "kindcase": "watch", "m": m,
                       "job": {"id": "w%d" % k, "tree": tree, "yaml": y, "requested": ["t"], "sentinel": sent, "ops": ops, "settle_ms": 30}})
     return cases
